@@ -1,3 +1,5 @@
 SPECIFICATION Spec
-CONSTANTS Mutant = "none"
+CONSTANTS
+  Mutant = "none"
+  StrictEmptyForm = FALSE
 CHECK_DEADLOCK FALSE
